@@ -112,6 +112,9 @@ func (w *IntegWorld) ConfigMap() map[string]interface{} {
 			"up": mk("up", cs.NUp), "down": mk("down", cs.NDown), "before": mk("before", cs.NBefore), "after": mk("after", cs.NAfter),
 			"env": map[string]string{"VS_CTX": cs.Name},
 		}
+		if len(cs.Vars) > 0 {
+			contexts[cs.Name].(map[string]interface{})["variables"] = cs.Vars
+		}
 	}
 	out := map[string]interface{}{"tasks": tasks}
 	if len(pipelines) > 0 {
@@ -226,6 +229,23 @@ func (e *integEngine) checkC08() {
 					where = "stage " + sn + " of " + g.Name
 				}
 			}
+		}
+		if r.Info.Block == "cond" {
+			// (taskctl evaluates a task's condition with the runner's environment and variables
+			// only; what is the stage's is the directory)
+			wantDir := t.Dir
+			if st != nil && st.Dir != "" {
+				wantDir = st.Dir
+			}
+			if wantDir == "" {
+				wantDir = cwd
+			}
+			if r.Info.Dir != wantDir {
+				c.Violate("C08", "dir-override", "%s, condition %s: evaluated in %q, want %q", where, r.Info.Key, r.Info.Dir, wantDir)
+				return
+			}
+			c.Count("c08_conditions_checked")
+			continue
 		}
 		leakFrom := func(name, val string, env bool) string {
 			for _, g := range e.w.AllGraphs() {
@@ -349,6 +369,23 @@ func (e *integEngine) checkC08() {
 					}
 				}
 			}
+			if t := e.w.Task(e.stageTask(s)); found && t != nil && t.Cond {
+				own := false
+				for gid, sn := range e.stageGID {
+					if sn != s.Name {
+						continue
+					}
+					for _, r := range e.execs {
+						if r.Info.GID == gid && r.Info.Block == "cond" {
+							own = true
+						}
+					}
+				}
+				if !own {
+					c.Violate("C08", "condition-not-evaluated-by-stage", "stage %s of %s ran the task's commands without evaluating the task's condition itself (in its own directory)", s.Name, g.Name)
+					return
+				}
+			}
 			if !found && e.pipelineRan(g.Name) {
 				c.Violate("C08", "stage-did-not-run", "stage %s of %s executed no command (status %s): its task could not be compiled or run with the stage's overrides", s.Name, g.Name, statusName(e.stages[s.Name].ReadStatus()))
 				return
@@ -426,6 +463,15 @@ func GenOverrideWorld(ch *Choices, thorough bool) *IntegWorld {
 		// a named context is one object shared by every run of the task
 		w.Contexts = []*CtxSpec{{Name: "c0", NBefore: ch.Choose(2, "ncb"), NAfter: ch.Choose(2, "nca"), NDown: ch.Choose(2, "ndown")}}
 		t.Context = "c0"
+		if ch.Bool(1, 2, "context-variables") {
+			// a context may declare variables of its own; a task's or a stage's value of the same name wins
+			w.Contexts[0].Vars = map[string]string{"VS_V0": "ctx-v0", "VS_CTXONLY": "ctx-only"}
+		}
+	}
+	if !strings.Contains(t.Dir, "{{") && ch.Bool(1, 4, "task-condition") {
+		// the task's condition is evaluated by every stage for itself, in the stage's directory
+		t.Cond = true
+		w.Plans[execID("shared", "cond", 0, "")] = &ExecPlan{DurMS: ch.Choose(60, "cond-dur")}
 	}
 	npipe := 1
 	if ch.Bool(1, 3, "two-pipelines") {
@@ -472,7 +518,7 @@ func GenOverrideWorld(ch *Choices, thorough bool) *IntegWorld {
 			}
 			if ch.Bool(1, 4, "override-dir") {
 				s.Dir = "/vs/" + s.Name
-				if ch.Bool(1, 2, "templated-stage-dir") {
+				if !t.Cond && ch.Bool(1, 2, "templated-stage-dir") {
 					// every stage with its own template text over the variable it may override
 					s.Dir = "/vs/" + s.Name + "-{{.VS_V0}}"
 				}
